@@ -2918,8 +2918,9 @@ class Cast(Pointwise):
     def _simplified(self):
         if iszero(self.arg):
             return zeros_like(self)
-        for axis, parts in self.arg._inflations:
-            return util.sum(_inflate(self._newargs(func), dofmap, self.shape[axis], axis) for dofmap, func in parts.items())
+        if self.arg.dtype != bool: # inflation of booleans is a logical or, which does not commute with the cast
+            for axis, parts in self.arg._inflations:
+                return util.sum(_inflate(self._newargs(func), dofmap, self.shape[axis], axis) for dofmap, func in parts.items())
         return super()._simplified()
 
     def _intbounds_impl(self):
